@@ -317,7 +317,7 @@ func (w *Worker) RunValidateSkeleton(sk *Skeleton, opt VOptions) *SkelResult {
 			res.VerdictUnsat++
 		case smt.Unknown:
 			// second opinion from z3 5.1.0 on the same assertion stack (one-shot, 120 s)
-			if m.S.CheckSecondOpinion(120, "z3-new", "-smt2") == smt.Unsat {
+			if secondLookUnsat(m) {
 				res.VerdictUnsat++
 				res.SecondOpinion++
 				break
